@@ -9,6 +9,7 @@ TRUSTED_BASE = [
 ]
 
 KANI_UNITS = {
+    "valref": {"name": "valref", "file": "src/values.rs", "harness": "valref.harness.rs", "modpath": "values"},
     "macros": {"name": "macros", "file": "src/parser/macros.rs", "harness": "macros.harness.rs", "modpath": "parser::macros"},
     "values": {"name": "values", "file": "src/values.rs", "harness": "values.harness.rs", "modpath": "values"},
 }
@@ -35,6 +36,20 @@ _TAIL_UNVERIFIED = [
 ]
 
 PROPS = {
+    "C03": {
+        "verus": ["valref_mut"], "kani": ["valref"], "native": [],
+        "level": "other",
+        "explanation": "BOUNDED stand-in (vectors of length 3 at element type u8, kani::unwind 6), not a proof: on ValueReference<Vec<T>> -- the "
+                       "type Value::Vector is built on -- a clone is the same object (ptr_eq) and a write through either alias is seen "
+                       "through the other; two separately created vectors are distinct and never see each other's writes; a literal "
+                       "(immutable) vector rejects mutation with RequiresMutable and keeps its contents; ptr_eq never relates a mutable "
+                       "and an immutable reference. The set!/frame half of C03 (LexicalScope over Rc<cell::RefCell<HashMap<String,_>>>) "
+                       "is outside both verifiers.",
+        "unverified": ["set! and frames: LexicalScope::set/get/define, a fresh child frame per call in apply_scheme_procedure",
+                       "the builtins vector-set!/vector-ref themselves (they take Values; Display for Value on the error path)",
+                       "vectors longer than 3, element types other than u8 (parametricity in T is not machine-checked)"],
+        "assumptions": ["RefCell's dynamic borrow state is not modelled by Verus (a double borrow_mut would panic); Kani executes the real RefCell"],
+    },
     "C07": {
         "verus": ["pair_pop", "values_num", "interp_tail", "repl_complete", "macro_transform", "lexer_pos"],
         "kani": ["values"], "native": ["panic_probe"],
@@ -87,7 +102,7 @@ PROPS = {
         "assumptions": ["functional oracle for the opaque evaluator: one evaluation of the test and two are not distinguished"],
     },
     "C08": {
-        "verus": ["interp_tail", "values_num"], "kani": [], "native": ["tail_arity_witness"],
+        "verus": ["interp_tail", "values_num", "valref_mut"], "kani": [], "native": ["tail_arity_witness"],
         "level": "proof",
         "explanation": "The argument-count test is proved to hold before EVERY hand-over to apply_scheme_procedure / a builtin body in the "
                        "trampoline loop (first call and every tail call), and an unacceptable count is proved to yield the ArgumentMissMatch "
